@@ -251,6 +251,48 @@ def site_scan(repo):
             "covered_by_theorem": sum(1 for o in listed.values() if o["covered_by"].startswith("theorem"))}
 
 
+# ---------------------------------------------------------------- modelled source map
+
+def source_drift(pid, repo):
+    """fingerprints the Go functions the model was written from (tools/modelled.json) in the tree under
+    check and compares them with tools/modelled.lock.json (the tree the model was last validated
+    against).  A drift is not a violation: it is listed in the evidence and makes the quick check also
+    run the thorough-tier correspondence search."""
+    sdir = os.path.join(VERIF, "tools", "srcmap")
+    binp = os.path.join(WORK, "srcmap")
+    with Lock("srcmap"):
+        if not os.path.exists(binp) or os.path.getmtime(binp) < os.path.getmtime(os.path.join(sdir, "main.go")):
+            rc, out = sh(["go", "build", "-o", binp, "."], cwd=sdir, env=GOENV, timeout=600)
+            if rc != 0:
+                raise Broken("build of tools/srcmap", out[-2000:])
+    mp = os.path.join(VERIF, "tools", "modelled.json")
+    rc, out = sh([binp, repo, mp], timeout=120)
+    if rc != 0:
+        raise Broken("tools/srcmap on %s" % repo, out[-2000:])
+    now = json.loads(out)
+    lock = json.load(open(os.path.join(VERIF, "tools", "modelled.lock.json")))
+    m = json.load(open(mp))
+    import fnmatch
+    globs = [g for grp in m["properties"].get(pid, []) for g in m["groups"][grp]]
+
+    def mine(key):
+        f = key.split("::")[0]
+        return any(fnmatch.fnmatch(f, g) for g in globs)
+    drift = []
+    for k in sorted(set(now) | set(lock)):
+        if not mine(k):
+            continue
+        if k not in lock:
+            drift.append({"function": k, "kind": "new"})
+        elif k not in now:
+            drift.append({"function": k, "kind": "removed"})
+        elif now[k] != lock[k]:
+            drift.append({"function": k, "kind": "changed"})
+    mykeys = [k for k in now if mine(k)]
+    return {"groups": m["properties"].get(pid, []), "files": len(set(k.split("::")[0] for k in mykeys)),
+            "functions_fingerprinted": len(mykeys), "drift": drift}
+
+
 # ---------------------------------------------------------------- known findings
 
 def load_known(pid):
@@ -305,9 +347,11 @@ def main(argv):
     known_seen = {}
     assum, rep = [], None
     scan = None
+    srcmap = None
     mism, ncases, nshards = [], 0, 0
     coqchk = None
     try:
+        srcmap = source_drift(pid, os.environ.get("VERIF_REPO") or REPO)
         if os.environ.get("VERIF_REPO"):
             coq_build(dev_targets=["theories/Properties/%s.vo" % m for m in property_modules(pid)] + ["theories/Harness/%s.vo" % h for h in cfg.get("harness_vo", [pid, "Net", "AppNet", "C12"])
                                                                                  if os.path.exists(os.path.join(COQ, "theories", "Harness", h + ".v"))])
@@ -356,7 +400,8 @@ def main(argv):
                            "unlisted_sites": scan["unlisted"],
                            "theorems_no_longer_tied": [a["theorem"] for a in assum]})
     searched = None
-    if (mism or (scan and scan["unlisted"])) and not failing_inputs and rep and tier == "quick" and os.environ.get("VERIF_NO_SEARCH") != "1":
+    drifted = bool(srcmap and srcmap["drift"])
+    if (mism or (scan and scan["unlisted"]) or drifted) and not failing_inputs and rep and tier == "quick" and os.environ.get("VERIF_NO_SEARCH") != "1":
         # the tie between model and code is broken but no oracle fired on the quick inputs:
         # search the implementation for an input on which the property itself fails
         # (thorough-tier generators, two further seeds; the model is not consulted here)
@@ -370,10 +415,30 @@ def main(argv):
                 searched["runs"].append({"seed": s2, "result": "search run did not complete: %s" % getattr(e, "what", e)})
                 continue
             found = [f for f in (rep2.get("oracle_failures") or []) if f["signature"] not in known_sigs]
-            searched["runs"].append({"seed": s2, "tier": "thorough", "evaluations": rep2.get("evaluations"), "oracle_failures": len(found)})
+            run_rec = {"seed": s2, "tier": "thorough", "evaluations": rep2.get("evaluations"), "oracle_failures": len(found)}
+            searched["runs"].append(run_rec)
             if found:
                 failing_inputs = found
                 break
+            if drifted and not mism and s2 == seed:
+                # the modelled source changed and the quick inputs show no difference: put the
+                # thorough-tier inputs through the model as well
+                try:
+                    mism2, n2, sh2 = eval_cases(pid, sdir)
+                except Broken as b:
+                    run_rec["model_evaluation"] = "did not complete: %s" % b.what
+                    continue
+                run_rec["model_cases_evaluated_in_coq"] = n2
+                run_rec["model_vs_impl_mismatches"] = len(mism2)
+                if mism2:
+                    dp2 = os.path.join(sdir, "cases_%s.jsonl" % pid)
+                    lines2 = open(dp2).read().splitlines() if os.path.exists(dp2) else []
+                    violations.append({"kind": "correspondence",
+                                       "what": "after a change of modelled source (%s): model (Coq) and implementation (Go) disagree on %d of %d thorough-tier cases" % (
+                                           ", ".join(d["function"] for d in srcmap["drift"][:3]), len(mism2), n2),
+                                       "mismatching_cases": [{"case_index": i, "case": json.loads(lines2[i]) if i < len(lines2) else None} for i in mism2[:20]],
+                                       "theorems_no_longer_tied": [a["theorem"] for a in assum]})
+                    break
     if failing_inputs:
         violations.append({"kind": "oracle", "what": failing_inputs[0]["what"],
                            "failing_inputs": failing_inputs[:20], "n_failing": len(failing_inputs)})
@@ -384,7 +449,7 @@ def main(argv):
                            "theorems_no_longer_tied": [a["theorem"] for a in assum]})
 
     wall = time.time() - t0
-    write_evidence(pid, cfg, tier, seed, assum, rep, ncases, nshards, mism, known_seen, violations, wall, coqchk, scan)
+    write_evidence(pid, cfg, tier, seed, assum, rep, ncases, nshards, mism, known_seen, violations, wall, coqchk, scan, srcmap, searched)
 
     for sig, f in known_seen.items():
         print("KNOWN-FINDING: property=%s %s [%s]" % (pid, known_sigs[sig]["what"], sig))
@@ -414,7 +479,7 @@ def run_coqchk(pid):
     return tail
 
 
-def write_evidence(pid, cfg, tier, seed, assum, rep, ncases, nshards, mism, known_seen, violations, wall, coqchk, scan=None):
+def write_evidence(pid, cfg, tier, seed, assum, rep, ncases, nshards, mism, known_seen, violations, wall, coqchk, scan=None, srcmap=None, searched=None):
     obligations = len(assum)
     discharged = sum(1 for a in assum if a["closed"] or all(x in ALLOWED_AXIOMS for x in a["axioms"]))
     if any(v["kind"] == "broken" for v in violations) and not assum:
@@ -444,6 +509,10 @@ def write_evidence(pid, cfg, tier, seed, assum, rep, ncases, nshards, mism, know
         cov["coqchk_tail"] = coqchk[-1500:]
     if scan:
         cov["site_scan"] = scan
+    if srcmap:
+        cov["modelled_source"] = srcmap
+    if searched:
+        cov["deeper_search"] = searched
     ev = {
         "property_id": pid,
         "tier": tier,
